@@ -93,6 +93,17 @@ def tree(v):
     raise Unsupported(repr(t))
 
 
+def _sorted_items(items):
+    """dict items in a canonical order: by the key's repr; by the whole item's repr only if two normalised keys coincide
+    (the value's repr is not computed otherwise: deeply nested values would make that quadratic)"""
+    if len(items) <= 1:
+        return tuple(items)
+    keys = [repr(a) for a, _ in items]
+    if len(set(keys)) == len(keys):
+        return tuple(x for _, x in sorted(zip(keys, items), key=lambda p: p[0]))
+    return tuple(sorted(items, key=repr))
+
+
 def norm(tr, loose_complex=False):
     """order-insensitive form: set elements and dict items sorted"""
     k = tr[0]
@@ -101,9 +112,9 @@ def norm(tr, loose_complex=False):
     if k in ("E", "Z"):
         return (k, tuple(sorted((norm(x, loose_complex) for x in tr[1]), key=repr)))
     if k == "M":
-        return (k, tuple(sorted(((norm(a, loose_complex), norm(b, loose_complex)) for a, b in tr[1]), key=repr)))
+        return (k, _sorted_items([(norm(a, loose_complex), norm(b, loose_complex)) for a, b in tr[1]]))
     if k == "O":
-        return (k, tr[1], tuple(sorted(((norm(a, loose_complex), norm(b, loose_complex)) for a, b in tr[2]), key=repr)))
+        return (k, tr[1], _sorted_items([(norm(a, loose_complex), norm(b, loose_complex)) for a, b in tr[2]]))
     if k == "C" and loose_complex:
         return (k, 0 if tr[1] == NEG_ZERO else tr[1], 0 if tr[2] == NEG_ZERO else tr[2])
     return tuple(tr)
@@ -473,3 +484,42 @@ def gen_value(rng, depth, for_model=True):
     for _ in range(rng.choice([0, 1, 2, 3])):
         fields[rng.choice(["x", "y", "name", "_p", "data", "items"])] = gen_value(rng, depth - 1, for_model)
     return make_inst(rng.choice(CLASSNAMES[:4]), fields)
+
+
+DEEP_LEAVES = [float("nan"), float("inf"), -0.0, 2 ** 70, -1, "h\u00e9llo", "", None, True, [], {}, 1.5]
+DEEP_LEAVES_ANY = [uuid.UUID(int=5), decimal.Decimal("2.50"), b"ab\xff", complex(1.5, 2.0), datetime.date(2020, 1, 2), (1, "a")]
+
+
+def gen_deep(rng, lossless=True, max_depth=180):
+    """(value, depth): a small leaf wrapped in `depth` containers (depth spread over 2..max_depth, every range of nesting
+    a message can have - not only the 0..6 of the recursive generators).  lossless: lists and str-keyed dicts only."""
+    depth = rng.choice([rng.randint(2, 20), rng.randint(20, 60), rng.randint(60, 100), rng.randint(100, 140),
+                        rng.randint(140, max_depth)])
+    depth = min(depth, max_depth)
+    q = rng.random()
+    if q < 0.5:
+        v = rng.choice(DEEP_LEAVES)
+    elif q < 0.8 or lossless:
+        v = gen_lossless(rng, 1)
+    else:
+        v = rng.choice(DEEP_LEAVES_ANY)
+    style = rng.choice(["list", "dict", "mixed", "mixed", "wide"] + ([] if lossless else ["tuple", "any"]))
+    for i in range(depth):
+        k = style
+        if style == "mixed":
+            k = rng.choice(["list", "dict"])
+        elif style == "any":
+            k = rng.choice(["list", "dict", "tuple"])
+        elif style == "wide":
+            k = rng.choice(["list2", "dict2"])
+        if k == "list":
+            v = [v]
+        elif k == "tuple":
+            v = (v,)
+        elif k == "dict":
+            v = {rng.choice(["k", "value", "x"]): v}
+        elif k == "list2":
+            v = [rng.choice(DEEP_LEAVES), v] if rng.random() < 0.5 else [v, rng.choice(DEEP_LEAVES)]
+        else:
+            v = {"a": rng.choice(DEEP_LEAVES), "k": v}
+    return v, depth
